@@ -192,11 +192,11 @@ def infoRows (names : Names) (read : Read) (info : Info) : List Bytes :=
         | .single _ r => [joinTab (read.name :: infoFields r cur nm ++ [rcField info.isRc])]
         | .linked _ f b =>
           let r1 := match f with
-            | some fm => [joinTab ((read.name ++ bytesOfStr ";1") :: infoFields fm cur (nm ++ bytesOfStr ";1") ++ [rcField info.isRc])]
+            | some fm => [joinTab (read.name :: infoFields fm cur (nm ++ bytesOfStr ";1") ++ [rcField info.isRc])]
             | none => []
           let cur' := match f with | some fm => fm.trimmed cur | none => cur
           let r2 := match b with
-            | some bm => [joinTab ((read.name ++ bytesOfStr ";2") :: infoFields bm cur' (nm ++ bytesOfStr ";2") ++ [rcField info.isRc])]
+            | some bm => [joinTab (read.name :: infoFields bm cur' (nm ++ bytesOfStr ";2") ++ [rcField info.isRc])]
             | none => []
           r1 ++ r2
       (m.trimmed cur, rows ++ new)
